@@ -158,7 +158,7 @@ def main(tier, replay=None):
     if replay:
         return do_replay(replay, ucg, base)
     cfgs = ["c09_pos", "c09_graph_q", "c09_twin"] if tier == "quick" else ["c09_pos", "c09_graph_t", "c09_twin"]
-    budget = 900 if tier == "quick" else 12000
+    budget = 900 if tier == "quick" else 6000
     opendevs = B.open_deviations() & DEVS
     states = trans = 0
     cmds = []
@@ -278,6 +278,8 @@ def main(tier, replay=None):
                 states += info.get("states", 0)
     code = rep.finish()
     shutil.rmtree(base, ignore_errors=True)
+    if code == 0:
+        shutil.rmtree(gd, ignore_errors=True)      # kept after a violation: the trace files are evidence
     C.write_evidence(PID, tier, "model_checking", {
         "states": states, "transitions": trans,
         "traces_validated_against_impl": len(results) + tv_runs,
